@@ -45,13 +45,16 @@ NAMED = {
 
 
 class Sym:
-    __slots__ = ("op", "args", "nid", "fp")
+    __slots__ = ("op", "args", "nid", "fp", "pz")
 
     # ------------------------------------------------------------------ construction
     def __init__(self, op, args, fp):
         self.op = op
         self.args = args
         self.fp = fp
+        # pz: a poison node (inf / nan that numpy produced from constants) is reachable.  Simplifications that would
+        # drop such an operand (0 * x, x - x) keep the poison instead: in IEEE arithmetic 0 * inf and inf - inf are nan
+        self.pz = op == "poison" or any(isinstance(a, Sym) and a.pz for a in args)
         _COUNTER[0] += 1
         self.nid = _COUNTER[0]
 
@@ -313,7 +316,7 @@ def add(a: Sym, b: Sym) -> Sym:
     elif b.op == "const" and b.args[0] == 0:
         return a
     if (a.op == "neg" and a.args[0] is b) or (b.op == "neg" and b.args[0] is a):
-        return ZERO
+        return poison("(inf or nan) - (inf or nan)") if a.pz else ZERO
     if a.nid > b.nid:
         a, b = b, a
     return _mk("add", (a, b), (a.fp + b.fp) % P)
@@ -337,7 +340,7 @@ def mul(a: Sym, b: Sym) -> Sym:
             return const(a.args[0] * b.args[0])
         c = a.args[0]
         if c == 0:
-            return ZERO
+            return poison("0 * (inf or nan)") if b.pz else ZERO
         if c == 1:
             return b
         if c == -1:
@@ -379,9 +382,9 @@ def div(a: Sym, b: Sym) -> Sym:
             return poison("division by the constant zero")
         return mul(a, const(1 / b.args[0]))
     if a.op == "const" and a.args[0] == 0:
-        return ZERO
+        return poison("0 / (inf or nan)") if b.pz else ZERO
     if a is b:
-        return ONE
+        return poison("(inf or nan) / (inf or nan)") if a.pz else ONE
     sign = False
     if a.op == "neg":
         a = a.args[0]
